@@ -739,6 +739,17 @@ func (engine *Engine) recv(ctx *app.RequestContext) {
 }
 
 // ServeHTTP makes the router implement the Handler interface.
+// containsCTLByte reports whether b has a byte the URI parser refuses (a control
+// character or DEL).
+func containsCTLByte(b []byte) bool {
+	for _, c := range b {
+		if c < ' ' || c == 0x7f {
+			return true
+		}
+	}
+	return false
+}
+
 func (engine *Engine) ServeHTTP(c context.Context, ctx *app.RequestContext) {
 	ctx.SetBinder(engine.binder)
 	ctx.SetValidator(engine.validator)
@@ -767,7 +778,10 @@ func (engine *Engine) ServeHTTP(c context.Context, ctx *app.RequestContext) {
 	}
 
 	// Follow RFC7230#section-5.3
-	if rPath == "" || rPath[0] != '/' {
+	//
+	// A target with a control byte is not parsed at all: the URI is left empty
+	// and Path() answers "/" for it, which is not what was asked for.
+	if rPath == "" || rPath[0] != '/' || containsCTLByte(ctx.Request.Header.RequestURI()) {
 		ctx.SetHandlers(engine.Handlers)
 		serveError(c, ctx, consts.StatusBadRequest, default400Body)
 		return
